@@ -408,6 +408,8 @@ PROPS = {
         "units": [
             plain("c10", "TestEnumFaults", shards_q=10, shards_t=15),
             plain("c10", "TestEnumFaultsStartTLS", shards_q=6, shards_t=8),
+            plain("c10", "TestReplayScripted"),
+            rapid("c10", "TestPropScripted", quick=(2500, 8), thorough=(40000, 14)),
         ],
     },
     "C13": {
